@@ -188,6 +188,16 @@ def main():
     else:
         names, okl, probs, cmd = audit(pid, tier)
         proof_problems += probs
+    layering_problems = []
+    if pid == 'C03':
+        # the Layer-R theorems cover every reachable representation state only if the package reaches the matrices
+        # through the three modelled mutators alone: decided on the current source (harness/layering.py)
+        import layering
+        try:
+            layering_problems = layering.problems()
+        except Exception as e:
+            layering_problems = ['layering check could not parse the source: %r' % (e,)]
+        proof_problems += ['layering (side condition of reachable_MInv / public_history_proper): ' + p for p in layering_problems]
     bad = grep_forbidden()
     if bad:
         proof_problems.append('forbidden construct in Lean sources: ' + '; '.join(bad[:3]))
@@ -305,6 +315,7 @@ def main():
             judge_evaluations=int(stats['judge_evaluations']) if stats else 0,
             distribution={k: v for k, v in sorted(kinds.items())} if kinds else {},
             correspondence_disagreements=len(corr), known_findings_seen=seen_known,
+            **({'layering_check': dict(cmd='python3 harness/layering.py', problems=layering_problems)} if pid == 'C03' else {}),
             exhaustive=False),
         assumptions=TRUSTED)
     os.makedirs(os.path.join(VERIF, 'evidence'), exist_ok=True)
